@@ -278,8 +278,14 @@ def layer1b_task(t, res):
         else:
             explore.explore_stateless(lambda: _call(gen, (n, n), kw), collect)
     sigs = sorted(mazes, key=repr)
+    res.add("l1b_distinct_mazes", (gen, kwkey(kw), n, t.get("rand"), len(sigs)))
     sigs = sigs[t["slice"]::t["nslices"]]
     osets = option_sets(n)
+    if t.get("osets") == "few":
+        # every maze the generator can emit (cyclic and disconnected ones included) under the default options and four special sets
+        cells = R.cells(n, n)
+        osets = [{}, dict(endpoints_not_equal=True), dict(deadend_start=True, deadend_end=True),
+                 dict(allowed_end=[cells[1], cells[-1]], deadend_end=True), dict(allowed_start=[cells[0]], allowed_end=[cells[-1]])]
     for sig in sigs:
         m, gen_answers = mazes[sig]
         for oi, opts in enumerate(osets):
@@ -609,6 +615,14 @@ def run(ctx):
             ([] if quick else [("gen_wilson", {}, 3, 16), ("gen_dfs", dict(do_forks=False), 3, 4), ("gen_percolation", dict(p=0.4), 3, 16)]):
         for sl in range(ns):
             T1b.append(dict(gen=gen, kw=kw, grid=n, slice=sl, nslices=ns, tier=ctx.tier, rand=None))
+    # every 3x3 graph as a percolation output (all 4096 edge patterns x boundary bits, the only generator with cyclic AND disconnected
+    # outputs) x every start_coord answer, under a few option sets: every answer of generate_random_path must be a shortest path
+    if quick:
+        for sl in range(16):
+            T1b.append(dict(gen="gen_percolation", kw=dict(p=0.4), grid=3, slice=sl, nslices=16, tier=ctx.tier, rand="effective", osets="few"))
+    else:
+        for sl in range(32):
+            T1b.append(dict(gen="gen_percolation", kw=dict(p=0.4), grid=3, slice=sl, nslices=32, tier=ctx.tier, rand="effective"))
     ctx.pmap("mzcheck.checks.c03", "layer1b_task", T1b)
     T2 = []
     for gen, kw in [("gen_dfs", {}), ("gen_prim", {}), ("gen_wilson", {}), ("gen_percolation", dict(p=0.8)), ("gen_dfs_percolation", dict(p=0.3))]:
@@ -633,7 +647,7 @@ def run(ctx):
     ctx.coverage.update(
         states=c.get("states", 0), transitions=c.get("transitions", 0),
         traces_validated_against_impl=c.get("executions", 0) + c.get("schedules", 0) + c.get("l2_executions", 0) + c.get("conformance_runs", 0),
-        schedules=c.get("schedules", 0), layer1_graphs=len(ctx.res.sets.get("l1_graphs", ())), layer1b_mazes=c.get("l1b_mazes", 0),
+        schedules=c.get("schedules", 0), layer1_graphs=len(ctx.res.sets.get("l1_graphs", ())), layer1b_mazes=c.get("l1b_mazes", 0), layer1b_distinct_mazes_per_generator=sorted(ctx.res.sets.get("l1b_distinct_mazes", ()), key=repr),
         layer3=sorted(ctx.res.sets.get("l3_outcomes", ()), key=repr)[:40],
         conformance=dict(runs=c.get("conformance_runs", 0), matched=c.get("conformance_matched", 0), unmatched=c.get("conformance_unmatched", 0),
                          matched_schedules=sorted(ctx.res.sets.get("conformance", ()), key=repr)),
